@@ -68,6 +68,9 @@ def gen(st, tier):
                 "key": G.session_key_spec(w), "bigfile": True}
         spec["faults"] = [["rep", ["frac", 0.05 + 0.9 * f.random()], f.choice(CLASSES)] for _ in range(6)] + [
             ["cut_bin", ["end", 0]], ["cut_bin", ["frac", f.random()]], ["cut_text", ["frac", f.random()]]]
+        # bytes around power-of-two offsets of the payload (buffer / window boundaries of a streaming cipher)
+        for off in f.sample([4095, 4096, 8176, 8184, 8191, 8192, 16368, 16383, 16384, 32767, 32768, 65535], 7):
+            spec["faults"].append(["rep", ["payload", off], f.choice(CLASSES)])
         return spec
     spec = files.file_spec(w, max_len=200 if tier == "quick" else 120, p_enc=0.25, allow_many=(tier == "quick"))
     if tier == "thorough":
@@ -302,7 +305,11 @@ def run(case):
                 if n < len(binary) and not any(binary[n:]):
                     out.probes["cut-drops-only-zero-bytes"] += 1
             elif fkind == "rep":
-                if ft[1][0] == "field":
+                if ft[1][0] == "payload":
+                    pays = [a for a, n_ in info["payloads"] if n_ > ft[1][1]]
+                    p = (pays[-1] if pays else 5) + ft[1][1]
+                    p = min(p, len(binary) - 1)
+                elif ft[1][0] == "field":
                     p = fields[ft[1][1] % len(fields)] if fields else 0
                 else:
                     p = _resolve(ft[1], len(binary))
